@@ -11,7 +11,8 @@ CHANNEL_OPEN_FAILURE(administratively prohibited, same channel number), UNIMPLEM
 """
 from pv import lib_authsrv as L
 
-PHASES = ["fresh", "after-service", "after-failure", "after-partial", "after-key-probe", "interactive", "gss-exchange"]
+PHASES = ["fresh", "after-service", "after-failure", "after-partial", "after-partial-publickey",
+          "after-partial-interactive", "after-partial-info-response", "after-key-probe", "interactive", "gss-exchange"]
 
 
 def chan_id_of_open(payload):
@@ -39,6 +40,15 @@ def phase_prefix(gen, phase, sid):
         return [L.mk_step(gen, 5, S(b"ssh-userauth")), L.mk_step(gen, 50, pw, {"r_password": 2})]
     if phase == "after-partial":
         return [L.mk_step(gen, 50, pw, {"r_password": 1})]
+    if phase == "after-partial-publickey":
+        # multi-factor server: a validly signed publickey request is only one factor
+        return [L.pk_step(gen, sid, user, L.client_keys()[0][0], "ssh-ed25519", True, 1)]
+    if phase == "after-partial-interactive":
+        return [L.mk_step(gen, 50, S(user, b"ssh-connection", b"keyboard-interactive", b"", b""), {"r_inter": 1})]
+    if phase == "after-partial-info-response":
+        return [L.mk_step(gen, 50, S(user, b"ssh-connection", b"keyboard-interactive", b"", b""),
+                          {"r_inter": ("query", "t", "i", [("Password: ", False)])}),
+                L.mk_step(gen, 61, S(1, b"answer"), {"r_iresp": 1})]
     if phase == "after-key-probe":
         key = L.client_keys()[0][0]
         payload = S(user, b"ssh-connection", b"publickey", False, b"ssh-ed25519", key.asbytes())
@@ -61,9 +71,24 @@ def oracle(ctx, tr):
     hit = False
     for i, (st, r) in enumerate(zip(tr["steps"], tr["real"])):
         p = st["ptype"]
-        if r["authed"] and not (granted or any(m == b"\x34" for m in L.sent_list(r))):
+        vs = L.verdicts(st, r)
+        if any(m == b"\x34" for m in L.sent_list(r)) and not L.legitimately_granted(st, r):
+            ctx.fail("userauth-success-without-the-applications-approval", L.describe(tr, i),
+                     "USERAUTH_SUCCESS although the application's verdicts in this step were %r" % [(n, v) for n, _c, v in vs])
+        if any(v == 1 for _n, _c, v in vs) and not any(v == 0 for _n, _c, v in vs):
+            ctx.dist("partial-verdict:" + ",".join(n for n, _c, v in vs if v == 1))
+            sent_ = L.sent_list(r)
+            names = [n for n, _c, v in vs if v == 1]
+            meta = st["meta"]
+            decided = names != ["publickey"] or (meta.get("attached") and meta.get("sig_valid") and not meta.get("truncated"))
+            # a verdict "one factor accepted, more needed" on a request that was really decided (not a key probe, not
+            # a bad signature) must be announced as USERAUTH_FAILURE with the partial-success flag
+            if decided and r["active"] and not any(m[:1] == b"\x33" and m[-1:] == b"\x01" for m in sent_):
+                ctx.fail("partial-verdict-not-answered-as-partial", L.describe(tr, i),
+                         "verdicts %r, sent %r" % ([(n, v) for n, _c, v in vs], [m.hex()[:40] for m in sent_]))
+        if r["authed"] and not (granted or L.legitimately_granted(st, r)):
             ctx.fail("reported-authenticated-without-userauth-success", L.describe(tr, i),
-                     "is_authenticated() is true although no USERAUTH_SUCCESS was ever sent on this connection")
+                     "is_authenticated() is true although no USERAUTH_SUCCESS backed by an approving callback was ever sent")
         if 80 <= p <= 100 and alive and not granted:
             hit = True
             case = L.describe(tr, i)
@@ -89,14 +114,16 @@ def oracle(ctx, tr):
                 ctx.fail("request-not-refused", case, "type %d: no reply and the connection stays up" % p)
         if r.get("wire"):
             ctx.disagree("wire: client/server views differ", L.describe(tr, i), None, r["wire"])
-        granted = granted or any(m == b"\x34" for m in L.sent_list(r))
+        # authentication has succeeded only when the application said so AND the server announced it
+        granted = granted or L.legitimately_granted(st, r)
         alive = bool(r["active"])
     return hit
 
 
 def run(ctx):
-    ctx.rule = ("(a) every type 80..100 x 7 phases (fresh, after service request, after failed / partial attempt, after "
-                "key probe, during keyboard-interactive, during GSS exchange) with structured or random payloads, followed "
+    ctx.rule = ("(a) every type 80..100 x 10 phases (fresh, after service request, after a failed attempt, after a PARTIAL "
+                "success of each method kind - password, validly signed publickey, keyboard-interactive verdict, info "
+                "response - after a key probe, during keyboard-interactive, during GSS exchange) with structured or random payloads, followed "
                 "by a password attempt; (b) random sessions of 1-12 messages, 45% connection-layer. distinct = distinct "
                 "(message, outcome) sequences; non-trivial = a type 80..100 arrived while the server was alive and "
                 "unauthenticated")
